@@ -111,6 +111,11 @@ pub fn run(out: &mut Out, thorough: bool, seed: u64, _extra: &[String]) {
                     let mut w = vec![0u64; n]; pm::dyadic_product(&a, &b, &m, &mut w); pm::intt(&mut w, &t); fl(&w) });
                 let s = match r.below(4) { 0 => 0, 1 => n, 2 => 2 * n - 1, _ => r.below(2 * n as u64) as usize };
                 out.case(&format!("negacyclic_shift {} {} {}", q, s, fl(&x)), &format!("shift-k{}", k), || { let mut w = vec![0u64; n]; pm::negacyclic_shift(&x, s, &m, &mut w); fl(&w) });
+                // multiplication by the monomial c X^s (kernel, both forms; destination dirty): coefficients 0, 1, q-1, unreduced words
+                let c = match r.below(6) { 0 => 0, 1 => 1, 2 => q - 1, 3 => if r.chance(1, 2) { q + 1 } else { u64::MAX }, _ => r.below(q) };
+                let xm = { let kd = r.below(5); vec_kind(&mut r, n, q, q, kd) };
+                out.case(&format!("negacyclic_monomial {} {} {} {}", q, c, s, fl(&xm)), &format!("mono-k{}", k), || { let mut w = vec![0xDEAD_BEEF_0BAD_F00Du64; n]; pm::negacyclic_multiply_mononomial(&xm, c, s, &m, &mut w); fl(&w) });
+                out.case(&format!("negacyclic_monomial {} {} {} {}", q, c, s, fl(&xm)), &format!("mono-inplace-k{}", k), || { let mut w = xm.clone(); pm::negacyclic_multiply_mononomial_inplace(&mut w, c, s, &m); fl(&w) });
             }
         }
         // not congruent to 1 mod 2N, and composite moduli congruent to 1 mod 2N
@@ -135,6 +140,7 @@ pub fn run(out: &mut Out, thorough: bool, seed: u64, _extra: &[String]) {
     }
     high_degree(out, &mut r, kmax, thorough);
     crate::wrappers::run(out, &mut r, if thorough { 120 } else { 24 }, true);
+    crate::wrappers::run_mono(out, &mut r, if thorough { 120 } else { 24 });
 }
 
 fn mulm(a: u64, b: u64, q: u64) -> u64 { ((a as u128 * b as u128) % q as u128) as u64 }
